@@ -111,6 +111,9 @@ const CATALOG: &[(&str, &str)] = &[
 const PLACEMENTS: &[&str] = &[
     "main", "main:if-true", "main:while-false", "main:block", "main:defer", "main:comptime", "main:uncalled-lambda",
     "helper-fn", "unused-global-fn", "imported-file:uncalled-fn",
+    // a function of an imported file that the ENTRY file evaluates at compile time (as a type):
+    // the error is in another file than the comptime block that reaches it (seeded change C07_3)
+    "imported-file:fn-evaluated-at-compile-time",
 ];
 
 struct Mutant {
@@ -127,7 +130,7 @@ fn mutate(rng: &mut Rng, p: &core::Program, nth: usize) -> Mutant {
     let mut placement = *rng.pick(PLACEMENTS);
     // `break` to an unknown label inside a defer is a different error (jump out of a defer) and a
     // syntax error swallows the wrapper's closing brace unpredictably: keep those at top level
-    if kind.starts_with("syntax") && placement != "helper-fn" && placement != "unused-global-fn" && placement != "imported-file:uncalled-fn" {
+    if kind.starts_with("syntax") && placement != "helper-fn" && placement != "unused-global-fn" && !placement.starts_with("imported-file:") {
         placement = "main";
     }
     if placement == "helper-fn" && p.fns.len() < 2 {
@@ -157,6 +160,10 @@ fn mutate(rng: &mut Rng, p: &core::Program, nth: usize) -> Mutant {
             tail = "\nm_other :: #import(\"m_other.capy\");\n".to_string();
             extra.push(("m_other.capy".to_string(), format!("core :: #mod(\"core\");\n\nm_helper :: () {{\n    {snippet}\n}}\n")));
         }
+        "imported-file:fn-evaluated-at-compile-time" => {
+            tail = "\nm_other :: #import(\"m_other.capy\");\nM_T :: comptime { m_other.m_make() };\nm_use :: (v: M_T) -> M_T { v }\n".to_string();
+            extra.push(("m_other.capy".to_string(), format!("core :: #mod(\"core\");\n\nm_make :: () -> type {{\n    {snippet}\n    i32\n}}\n")));
+        }
         w => {
             let main = &mut q.fns[0];
             let pos = rng.below(main.body.len() as u64 + 1) as usize;
@@ -172,7 +179,7 @@ pub fn run(tier: &str, seed: u64, widen: bool) -> Report {
     let mut rep = Report::new(
         "C07",
         "real capy CLI run with --verbose-types local (error diagnostics, unsafe marker, exit status, object/executable written) vs the gate model CapyV.Gate.gate",
-        "seeded well-typed CapyCore programs (generator of C01, no runtime faults) and five mutants of each: one rule-breaking snippet out of a catalog of 41 (19 type, 5 mutability, 8 const, 5 scope, 4 syntax errors) placed in main (top level / if true / while false / block / defer / comptime block / uncalled lambda), in a helper function, in an unused global function or in an uncalled function of an imported file; non-trivial = mutated program; distinct by source text",
+        "seeded well-typed CapyCore programs (generator of C01, no runtime faults) and five mutants of each: one rule-breaking snippet out of a catalog of 41 (19 type, 5 mutability, 8 const, 5 scope, 4 syntax errors) placed in main (top level / if true / while false / block / defer / comptime block / uncalled lambda), in a helper function, in an unused global function, in an uncalled function of an imported file or in a function of an imported file that the entry file evaluates at compile time; non-trivial = mutated program; distinct by source text",
     );
     if !crate::e2e::available() {
         rep.notes.push("capy CLI binary missing".into());
